@@ -20,7 +20,7 @@ FUNCTIONS = [(RX, "DNARegex.search"), (RX, "SeqMatch.group"), (REC, "CircularRec
              (MOD, "AbstractModule._match"), (VEC, "AbstractVector._match"),
              (MOD, "AbstractModule.overhang_start"), (MOD, "AbstractModule.overhang_end"), (MOD, "AbstractModule.target_sequence"),
              (VEC, "AbstractVector.overhang_start"), (VEC, "AbstractVector.overhang_end"), (VEC, "AbstractVector.target_sequence"),
-             (VEC, "AbstractVector.placeholder_sequence")]
+             (VEC, "AbstractVector.placeholder_sequence"), (S, "StructuredRecord._get_regex")]
 ASSUMES = ["D-RE (RE2 locality: a match attempt depends only on the window it may consume)", "D-RESTR", "D-SEQ", "D-REC-SLICE",
            "hypothesis of the statement: exactly one start position admits a match"]
 TRUSTED = ["CPython re locality"]
